@@ -379,6 +379,7 @@ func newGraph(prof *profile.Profile, o *Options) (*Graph, map[uint64]Nodes) {
 func selectNodesForGraph(nodes Nodes, dropNegative bool) *Graph {
 	// Collect nodes into a graph.
 	gNodes := make(Nodes, 0, len(nodes))
+	selected := make(map[*Node]bool, len(nodes))
 	for _, n := range nodes {
 		if n == nil {
 			continue
@@ -390,6 +391,21 @@ func selectNodesForGraph(nodes Nodes, dropNegative bool) *Graph {
 			continue
 		}
 		gNodes = append(gNodes, n)
+		selected[n] = true
+	}
+	// Drop the edges from or to nodes that were left out, so that no report
+	// refers to a node that is not part of the graph.
+	for _, n := range gNodes {
+		for src := range n.In {
+			if !selected[src] {
+				delete(n.In, src)
+			}
+		}
+		for dest := range n.Out {
+			if !selected[dest] {
+				delete(n.Out, dest)
+			}
+		}
 	}
 	return &Graph{gNodes}
 }
